@@ -9,8 +9,8 @@ RULE = ('the workloads of the other monitors (C01-C17: pairings, group law over 
         'Gt arithmetic, the internal tower through the hooks) and a workload of MALFORMED group operands (triples off the curve, same x with unrelated y, z = 0 junk, affine values edited through the setters; no oracle for these) are regenerated with this check\'s own seeds and every program is executed by '
         'two executors built from the same tree: --release, and the dev profile exactly as the repository configures it (opt-level 0 for '
         'sm9_core, 3 for dependencies, debug-assertions and overflow-checks on). The two answer logs must be identical line by line '
-        '(values, Jacobian coordinates, Ok/Err kinds, None, panics), and no answer may be a panic whose message is an arithmetic/shift '
-        'overflow, an assertion, or an index-out-of-bounds. distinct = distinct program lines (hashed with their position-independent '
+        '(values, Jacobian coordinates, Ok/Err kinds, None, panics): a debug-only assertion or overflow check that fires shows up as a '
+        'panic in the dev log only. distinct = distinct program lines (hashed with their position-independent '
         'text); non-trivial = the line is a call into sm9_core with at least one operand')
 ASSUMPTIONS = ['the release-side answers are judged for correctness by the other monitors; this check only compares configurations']
 
@@ -74,9 +74,8 @@ class DiffCtx:
                 self.o.fail('profile-difference|' + toks[1], '%s answers differently: release %r, dev %r (%s)' % (toks[1], x[:140], y[:140], line[:200]),
                             release=x, dev=y, line=line, workload=self.name)
                 continue
-            if x.startswith('panic') and BAD_PANIC.search(x):
-                self.o.fail('debug-only-check-fired|' + toks[1], '%s: %r (%s)' % (toks[1], x[:200], line[:200]), release=x, dev=y, line=line, workload=self.name)
-                continue
+            # a panic that is IDENTICAL in both profiles is not a debug-only check (an overflow check or debug_assert cannot fire in
+            # the release executor, so one that fires shows up above as a difference); it is only counted
             self.o.ok('agree/' + self.name, (toks[1], line.split(' ', 1)[1] if '$' not in line else (self.name, self.idx, line)), nontriv)
             self.o.classes['no-debug-only-panic'] += 1
             if x.startswith('panic'):
